@@ -67,6 +67,9 @@ alias source_market_share_weights := ms_src
 accessible best ask, `None` if either side is missing among the accessible markets -/
 alias source_market_maker_base_price := bp_src
 
+/-- the normal-margin mode: same expected price and sides, quote `E + gauss · margin`, refused if negative -/
+alias source_fcn_normal_margin := fcn_src_normal
+
 end Uninterpreted
 
 /-! ### at the reals: the source's formula is the model's -/
